@@ -402,6 +402,9 @@ class Trough(Labware):
             A list/tuple of names for the column-wise contents of the troughs.
             If provided, these names are used for composition tracking.
         """
+        if not isinstance(columns, int) or columns < 1:
+            raise ValueError(f"Invalid columns: {columns}")
+
         # Convert lazily scalar-valued parameters to lists
         if column_names is None:
             column_names = [None] * columns
